@@ -59,6 +59,7 @@ type oblResult struct {
 	File   string
 	Query  string
 	Status string // discharged | refuted | undecided | cover-ok | cover-vacuous
+	Assumed string // non-empty: discharged only under this named assumption class
 }
 
 type report struct {
@@ -72,6 +73,8 @@ type report struct {
 	WallGen   float64
 	WallSolve float64
 	TmpDir    string
+	Excluded  []string
+	AssumedDis []string
 }
 
 func contractProps(c *vc.Contract) []string { return c.Props }
@@ -198,6 +201,11 @@ func run(prop, tier, funcFilter string, verbose bool) (*report, error) {
 			all = append(all, &oblResult{O: o})
 		}
 	}
+	// obligations listed in excluded.json are not part of the claim; the quick tier does not spend solver time on them
+	exclSkip := map[string]string{}
+	if tier != "thorough" {
+		exclSkip = loadExcluded(prop)
+	}
 	par := 6
 	sem2 := make(chan struct{}, par)
 	for i, r := range all {
@@ -207,6 +215,10 @@ func run(prop, tier, funcFilter string, verbose bool) (*report, error) {
 			sem2 <- struct{}{}
 			defer func() { <-sem2 }()
 			o := r.O
+			if _, skip := exclSkip[o.Name]; skip {
+				r.Status = "excluded"
+				return
+			}
 			var q string
 			if o.Cover {
 				q = o.C.Query([]string{o.Hyp}, false)
@@ -222,6 +234,19 @@ func run(prop, tier, funcFilter string, verbose bool) (*report, error) {
 				r2 := vc.Solve(r.File, secs*2, false)
 				r2.Tried = append(r.Res.Tried, r2.Tried...)
 				r.Res = r2
+			}
+			if !o.Cover && r.Res.Status != "unsat" && o.Relax != "" {
+				// second chance under a named assumption class (recorded in the evidence)
+				q2 := o.C.Query([]string{o.Hyp, o.Relax, vc.Not(o.Goal)}, false)
+				f2 := filepath.Join(tmp, fmt.Sprintf("o%04d.relaxed.smt2", i))
+				os.WriteFile(f2, []byte("; "+o.Name+" (relaxed: "+o.RelaxName+")\n"+q2), 0o644)
+				r2 := vc.Solve(f2, secs, true)
+				if r2.Status == "unsat" {
+					r2.Tried = append(r.Res.Tried, r2.Tried...)
+					r.Res = r2
+					r.Query = q2
+					r.Assumed = o.RelaxName
+				}
 			}
 			switch {
 			case o.Cover && r.Res.Status == "unsat":
@@ -242,7 +267,12 @@ func run(prop, tier, funcFilter string, verbose bool) (*report, error) {
 	rep.WallSolve = time.Since(t2).Seconds()
 	if verbose {
 		for _, r := range all {
-			fmt.Printf("  %-12s %-10s %6.2fs  %s  (%s)\n", r.Status, r.Res.Solver, r.Res.Secs, r.O.Name, posStr(r.O))
+			fmt.Printf("  %-12s %-10s %6.2fs  %s  (%s) %s\n", r.Status, r.Res.Solver, r.Res.Secs, r.O.Name, posStr(r.O), r.Assumed)
+		}
+		for _, f := range rep.Funcs {
+			for _, n := range f.Notes {
+				fmt.Printf("  note %s: %s\n", strings.ReplaceAll(f.Key, module+"/", ""), n)
+			}
 		}
 	}
 	return rep, nil
